@@ -130,9 +130,13 @@ fn culprit(v: &Value) -> String {
     let mut parts: Vec<String> = ch.iter().take(4).map(|c| match c {
         Value::Symbol(s) | Value::Keyword(s) => {
             let mut t = leaf_class(c);
+            // only the first unusual constituent in this fixed order: a name usually fails
+            // because of one of them, and the others would only split one cause over
+            // many signatures
             for bad in ['"', '|', '\'', '`', ',', '#', '\\'] {
                 if s.contains(bad) {
                     t.push_str(&format!("+contains{:?}", bad));
+                    break;
                 }
             }
             t
